@@ -832,7 +832,10 @@ class Translator:
         cx.emit('{'); cx.ind += 1
         cx.scopes.append([])
         last = None
-        for c in n.get('inner', []):
+        kids = n.get('inner', [])
+        for i, c in enumerate(kids):
+            if c.get('kind') in ('WhileStmt', 'ForStmt'):
+                cx.siblings_before = kids[:i]; cx.siblings_after = kids[i + 1:]
             self.S(c, cx); last = c.get('kind')
         cl = cx.scopes.pop()
         if last not in ('ReturnStmt', 'BreakStmt', 'ContinueStmt'):
@@ -847,6 +850,15 @@ class Translator:
 
     def var_decl(self, v, cx):
         t = self.ctype(self.qt(v))
+        if v['id'] in getattr(cx, 'predecl', {}):
+            # prologue of a split loop: the local is an out-parameter here
+            lv = cx.vars[v['id']][0]
+            init = v['inner'][0] if v.get('inner') else None
+            if init is None: return
+            e = self.sp_value(init, cx) if t.cls == 'sp' else self.E(init, cx)
+            self.flush_pre(cx)
+            cx.emit(f'{lv} = {e};')
+            return
         name = cx.uniq(v['name'])
         init = v['inner'][0] if v.get('inner') else None
         if t.cls == 'lock_guard':
@@ -967,13 +979,13 @@ class Translator:
         cx.ind -= 1; cx.emit('}')
 
     def S_BreakStmt(self, n, cx):
-        self.exit_scopes(cx, cx.loop_depth_scopes[-1] if cx.loop_depth_scopes else 0)
+        self.exit_scopes(cx, cx.loop_depth_scopes[-1] if cx.loop_depth_scopes else getattr(cx, 'base', 0))
         if cx.split_mode is not None and not cx.loop_depth_scopes:
             cx.emit('return 1; /* break */'); return
         cx.emit('break;')
 
     def S_ContinueStmt(self, n, cx):
-        self.exit_scopes(cx, cx.loop_depth_scopes[-1] if cx.loop_depth_scopes else 0)
+        self.exit_scopes(cx, cx.loop_depth_scopes[-1] if cx.loop_depth_scopes else getattr(cx, 'base', 0))
         if cx.split_mode is not None and not cx.loop_depth_scopes:
             cx.emit('return 0; /* continue */'); return
         cx.emit('continue;')
@@ -1036,10 +1048,30 @@ class Translator:
             params.append(f'{cx.ret.c} *__retval')
         params += self.ghost_decls()
         bcx.emit(f'if (!({self.E(cond_n, bcx)})) return 3; /* loop exit */')
-        bcx.scopes.append([])
+        bcx.scopes = [list(x) for x in cx.scopes]
+        bcx.base = len(bcx.scopes)
         self.S_block(body_n, bcx)
-        bcx.scopes.pop()
         bcx.emit('return 0;')
+        # prologue (statements of the enclosing block before the loop) and epilogue (after it), same signature
+        for part, stmts in (('pre', getattr(cx, 'siblings_before', [])), ('epi', getattr(cx, 'siblings_after', []))):
+            pcx = Ctx(self, f'{key}_{part}', cx.self_expr)
+            pcx.ret = cx.ret; pcx.split_mode = {}
+            pcx.vars = dict(bcx.vars); pcx.names = set(bcx.names)
+            pcx.predecl = set(cx.vars.keys()) if part == 'pre' else set()
+            if part == 'pre':
+                # enclosing scopes are still open when the loop is reached: nothing is cleaned up here
+                pcx.scopes = [list(x) for x in cx.scopes[:-1]] + [[]]
+                for st in stmts: self.S(st, pcx)
+            else:
+                # the epilogue closes the enclosing block: inherits its pending cleanups (lock guards ...)
+                pcx.scopes = [list(x) for x in cx.scopes]
+                for st in stmts: self.S(st, pcx)
+                if not stmts or stmts[-1].get('kind') != 'ReturnStmt':
+                    for st_ in reversed(pcx.scopes[-1]): pcx.emit(st_)
+            pcx.emit('return 0;')
+            pproto = f'int {key}_{part}({", ".join(params)})'
+            pcx.lines = self.add_reach(pcx.lines, f'{key}_{part}')
+            self.funcs.append((f'{key}_{part}', pproto, pproto + f'\nCONTRACT({key}_{part})\n{{\n' + '\n'.join(pcx.lines) + '\n}', f'{part} of split loop {key}'))
         proto = f'int {key}({", ".join(params)})'
         bcx.lines = self.add_reach(bcx.lines, key)
         text = proto + f'\nCONTRACT({key})\n{{\n' + '\n'.join(bcx.lines) + '\n}'
